@@ -61,7 +61,8 @@ fn plan(profile: u8) -> SinkPlan {
 
 fn gen_cfg(rng: &mut Rng, family: &str) -> Cfg {
     let (n_reqs, n_reps) = match family {
-        "burst" => (rng.range(1, 70) as usize, rng.below(3) as usize),
+        "burst" => (rng.range(1, 135) as usize, rng.below(3) as usize),
+        "firehose" => (rng.range(1, 2) as usize, 1),
         "c02" => (rng.range(1, 4) as usize, 1),
         "c08" => (rng.range(1, 3) as usize, rng.range(1, 3) as usize),
         "c09" => (rng.below(4) as usize, rng.below(3) as usize),
@@ -76,7 +77,7 @@ fn gen_cfg(rng: &mut Rng, family: &str) -> Cfg {
     Cfg {
         n_reqs,
         n_reps,
-        requests: (0..n_reqs).map(|_| if family == "burst" { (rng.below(5) == 0) as u32 } else { rng.below(6) as u32 }).collect(),
+        requests: (0..n_reqs).map(|_| if family == "burst" { (rng.below(5) == 0) as u32 } else if family == "firehose" { rng.range(900, 2600) as u32 } else { rng.below(6) as u32 }).collect(),
         steps,
         spurious: matches!(family, "c02" | "c08" | "c11" | "c10") && rng.pct(25),
         close_at: match family {
@@ -251,7 +252,9 @@ impl Sim {
             Kind::Replier => Socket::Server((si, st)),
             _ => unreachable!(),
         };
-        let r = self.tx.try_send(sock);
+        // like the server, every registration goes through its own clone of the topic's sender (a clone owns a
+        // guaranteed slot, so more registrations than the channel's nominal capacity can queue up)
+        let r = self.tx.clone().try_send(sock);
         let mut w = lock(&self.sh);
         let label = w.peers[peer].label.clone();
         match r {
@@ -581,6 +584,7 @@ impl Sim {
         let shutting_down = self.closed;
 
         // ---- classification of repliers --------------------------------------------------
+        let rejected_set: HashSet<usize> = self.reps.iter().copied().filter(|r| Self::is_rejected(&w, *r)).collect();
         let mut bound_live: Vec<usize> = vec![];
         for &r in &self.reps {
             let pe = &w.peers[r];
@@ -753,7 +757,7 @@ impl Sim {
             }
             last_seq.insert((it.producer, *r), it.seq);
             // at most one replier receives at any moment
-            if Self::is_rejected(&w, *r) {
+            if rejected_set.contains(r) {
                 self.findings.push(Finding {
                     class: "binding",
                     sig: "reqrep/request-to-rejected-replier".into(),
@@ -831,6 +835,10 @@ impl Sim {
             }
         }
         // must-deliver: a replier bound before the request was taken and that never left
+        let mut delivered_to: HashMap<usize, Vec<usize>> = HashMap::new();
+        for d in &deliveries {
+            delivered_to.entry(d.2).or_default().push(d.1);
+        }
         for &r in &bound_live {
             let bound_since = w.peers[r].stream.as_ref().unwrap().first_touch.unwrap();
             let rsi = w.peers[r].sink.as_ref().unwrap();
@@ -844,7 +852,7 @@ impl Sim {
                     if !matches!(it.class, "request" | "probe-request") || *t <= bound_since {
                         continue;
                     }
-                    let n = deliveries.iter().filter(|d| d.2 == *uid && d.1 == r).count();
+                    let n = delivered_to.get(uid).map_or(0, |v| v.iter().filter(|x| **x == r).count());
                     if n == 0 && !shutting_down {
                         self.findings.push(Finding {
                             class: "routing",
@@ -926,10 +934,10 @@ impl Sim {
                         }
                         let mine: Vec<&(usize, Frame)> = recv.iter().filter(|(who, _)| *who == q).collect();
                         let qs = w.peers[q].sink.as_ref().unwrap();
-                        // `connected`: sink healthy; we only demand delivery for requestors whose stream
-                        // had not ended when the reply was taken (a half-closed requestor is a grey zone)
-                        let qst = w.peers[q].stream.as_ref().unwrap();
-                        let connected = qs.healthy() && qst.end_seen.map_or(true, |e| e > *t) && !qst.ended;
+                        // `connected`: its sink is healthy. A requestor that has finished *sending* (half-close)
+                        // but keeps reading still has replies owed to it.
+                        let connected = qs.healthy();
+                        let _ = t;
                         if mine.len() > 1 {
                             self.findings.push(Finding {
                                 class: "routing",
@@ -1305,8 +1313,11 @@ pub fn run(seed: u64, family: &str, keep_dump: bool) -> RunResult {
             }
             A::Reg(p) => sim.register(p),
             A::Request(q) => {
-                *remaining.get_mut(&q).unwrap() -= 1;
-                sim.request(q, "request", false);
+                let k = if family == "firehose" { (sim.rng.range(300, 1500) as u32).min(remaining[&q]) } else { 1 };
+                for _ in 0..k {
+                    *remaining.get_mut(&q).unwrap() -= 1;
+                    sim.request(q, "request", false);
+                }
             }
             A::Big(q) => {
                 big_left -= 1;
